@@ -22,6 +22,8 @@
      R6  the XML declaration is read by position of '=' and the last byte only: quotes are not checked,
          pseudo-attributes may repeat or be unknown (XmlDeclR below)                                 [XML: XMLDecl]
      R7  any byte except '<' is character data (control characters, "]]>")                           [XML: Char, no "]]>"]
+     R8  a tag may end with a DANGLING attribute: text '=' quote blanks, with no closing quote (an open quote followed by blanks up to the end of the tag): the loader
+         ignores it silently, the name is not even looked up (WfTrail)                               [XML: not well formed]
    RESTRICTIONS (well-formed XML outside the subset - rejected by the loader, not read by Reads): no DOCTYPE, no CDATA
    sections, no '>' inside attribute values or PIs, no blank before '>' of an end tag or around '=', no comment after
    the root element, UTF-8 only. *)
@@ -68,12 +70,18 @@ Definition WfAttr (a : xattr) : Prop :=
 (* the target of a processing instruction: the text up to the first blank *)
 Definition pi_target (body : list N) : list N := hd [] (split_ws body).
 
+(* R8: what may stand between the last attribute and the end of a tag *)
+Definition WfTrail (trail : list N) : Prop :=
+  allws trail \/
+  exists pre nm q w, trail = pre ++ nm ++ [61; q] ++ w /\ pre <> [] /\ allws pre /\ no_byte 61 nm /\ (q = 34 \/ q = 39) /\
+                     w <> [] /\ allws w /\ no_byte 62 nm.
+
 Inductive WfX : xml -> Prop :=
 | wf_text t : t <> [] -> no_byte 60 t -> WfX (XText t)
 | wf_comment c : CommentOk c -> WfX (XComment c)
 | wf_pi body : no_byte 62 body -> bytes_eqb (pi_target body) (BS "xml") = false -> WfX (XPI body)
 | wf_elem name atts trail sc kids :
-    clean_name name = true -> Forall WfAttr atts -> allws trail -> (sc = true -> kids = []) -> WfItems kids ->
+    clean_name name = true -> Forall WfAttr atts -> WfTrail trail -> (sc = true -> kids = []) -> WfItems kids ->
     WfX (XElem name atts trail sc kids)
 with WfItems : list xml -> Prop :=
 | wfi_nil : WfItems []
